@@ -1268,7 +1268,9 @@ fn trace_stage(rep: &mut Report, args: &Args, rng: &mut Rng, c13: bool, replay: 
         if let Some(l) = &lean {
             rep.traces_validated += 1;
             let rust_rejects = v.is_some();
-            if (l != "accept") != rust_rejects {
+            // a panic is not part of the history: nothing to compare
+            let panicked = matches!(v, Some((k, _)) if k == "trace:panic");
+            if !panicked && (l != "accept") != rust_rejects {
                 rep.disagreement(
                     "keepalive/trace-spec",
                     &format!("{line} ## history: {}", requests[k]),
@@ -1281,7 +1283,12 @@ fn trace_stage(rep: &mut Report, args: &Args, rng: &mut Rng, c13: bool, replay: 
             }
         }
         if let Some((key, what)) = v {
-            rep.oracle_failure(key, line, &requests[k], what);
+            // slot contents are C13's business: under C06 they are judged (both oracles agree) but not reported
+            if c13 || key != "trace:slot" {
+                rep.oracle_failure(key, line, &requests[k], what);
+            } else {
+                rep.bump("trace:slot finding left to C13");
+            }
         }
     }
 }
@@ -1328,7 +1335,9 @@ fn main() {
     let mut rng = Rng::new(args.seed);
     let mut cases: Vec<Case> = vec![];
     let mut trace_replay = None;
-    let mut run_traces = true;
+    // `--only step` / `--only trace` restrict the run to one stage (used to measure each stage's sensitivity)
+    let only = args.extra.get("only").cloned().unwrap_or_default();
+    let mut run_traces = only != "step";
     if let Some(line) = args.replay_case() {
         // a correspondence replay may carry a suffix after ` ## `
         let line = line.split(" ## ").next().unwrap().to_string();
@@ -1349,7 +1358,11 @@ fn main() {
             }
         }
         rep.bump_by("corpus cases", cases.len() as u64);
+        if only == "trace" {
+            cases.clear();
+        }
         // (1) exhaustive maximal histories of the property's family
+        if only != "trace" {
         let fam = if c13 { family_c13() } else { family_c06() };
         let depth = match (c13, args.thorough()) {
             (false, false) => 7,
@@ -1369,6 +1382,7 @@ fn main() {
         for i in 0..n_rand {
             let slots = if c13 { i % 8 != 0 } else { i % 4 == 0 };
             cases.push(random_case(&mut rng, slots));
+        }
         }
     }
 
